@@ -102,23 +102,24 @@ contract(K + 'CompactCacheBase._get_bundle_fname_and_offset', props=['C05', 'C09
          ensures=[
              'result[1][0] == tile_coord[0] // 128 * 128 and result[1][1] == tile_coord[1] // 128 * 128',
              # the name is cache_dir / L<level> / R<row block, hex>C<column block, hex>
-             """result[0] == self.cache_dir + '/' + 'L' + fmt0d(2, tile_coord[2]) + '/' + 'R' + fmt0x(4, tile_coord[1] // 128 * 128)
-                               + 'C' + fmt0x(4, tile_coord[0] // 128 * 128)"""],
+             """result[0] == pjoin(self.cache_dir, 'L' + fmt0d(2, tile_coord[2]),
+                                   'R' + fmt0x(4, tile_coord[1] // 128 * 128) + 'C' + fmt0x(4, tile_coord[0] // 128 * 128))"""],
          must_fail="result[1][0] == tile_coord[0]")
 
 lemma('bundle_name_injective', ['C05'],
-      doc='d/L<l>/R<a>C<b> == d/L<l2>/R<a2>C<b2> and the number images contain none of "C", "/", "R", "L"  =>  l, a, b equal '
+      doc='pjoin(d, L<l>, R<a>C<b>) = p + L<l>/R<a>C<b> with p = d or d/ (the same for both): p L<l>/R<a>C<b> == p L<l2>/R<a2>C<b2> '
+          'and the number images contain none of "C", "/", "R", "L"  =>  l, a, b equal '
           '(with injectivity of the number formats: tiles of different levels or 128-blocks never share a bundle file)',
       fn=lambda z3: (lambda d, l, l2, a, a2, b, b2: (
-          [z3.Concat(d, z3.StringVal('/L'), l, z3.StringVal('/R'), a, z3.StringVal('C'), b) ==
-           z3.Concat(d, z3.StringVal('/L'), l2, z3.StringVal('/R'), a2, z3.StringVal('C'), b2)] +
+          [z3.Concat(d, z3.StringVal('L'), l, z3.StringVal('/R'), a, z3.StringVal('C'), b) ==
+           z3.Concat(d, z3.StringVal('L'), l2, z3.StringVal('/R'), a2, z3.StringVal('C'), b2)] +
           [z3.Not(z3.Contains(x, z3.StringVal(ch))) for x in (l, l2, a, a2, b, b2) for ch in ('C', '/', 'R', 'L')],
           z3.And(l == l2, a == a2, b == b2)))(*z3.Strings('d l l2 a a2 b b2')))
 
 
 # ---- bulk dispatch: the single-bundle fast path is taken only if ALL concerned tiles live in ONE bundle file -------------
-ghost('bname', ['cache', 'c'], """cache.cache_dir + '/' + 'L' + fmt0d(2, c[2]) + '/' + 'R' + fmt0x(4, c[1] // 128 * 128)
-                                 + 'C' + fmt0x(4, c[0] // 128 * 128)""")
+ghost('bname', ['cache', 'c'], """pjoin(cache.cache_dir, 'L' + fmt0d(2, c[2]), 'R' + fmt0x(4, c[1] // 128 * 128)
+                                 + 'C' + fmt0x(4, c[0] // 128 * 128))""")
 TF = {'stored': 'bool', 'coord': 'opt[tuple[int,int,int]]', 'source': 'opt[opaque]'}
 SET_INV = [
     'len(bundle_files) >= 0',
